@@ -311,7 +311,8 @@ def run_case(inp):
             bigs.add_molecules(Molecules((pos_px + pad) * scale, rot), tmpl)
             got = np.asarray(small.simulate(N))
             ref = np.asarray(bigs.simulate(tuple(n_ + 2 * pad for n_ in N)))[pad:pad + N[0], pad:pad + N[1], pad:pad + N[2]]
-            if not np.allclose(got, ref, atol=2e-4 * (1 + np.abs(ref).max())):
+            # (the two simulations evaluate the same poses from float32 matrices with different translations: 1e-3)
+            if not np.allclose(got, ref, atol=2e-3 * (1 + np.abs(ref).max())):
                 d = np.abs(got - ref)
                 V("window", f"the volume is not the corresponding window of a larger simulation: max difference {d.max():.4g} at "
                             f"{np.unravel_index(int(d.argmax()), d.shape)} (order {order}, rotated {bool(inp['rotate'])})")
